@@ -240,6 +240,9 @@ func (t *TrafBox) OptimizeTfhdTrun() error {
 		if hasCommonFlags {
 			if firstSampleFlags != commonSampleFlags {
 				trun.SetFirstSampleFlags(firstSampleFlags)
+			} else {
+				// All samples have the same flags, so a first-sample-flags value must not override the default
+				trun.RemoveFirstSampleFlags()
 			}
 			tfhd.Flags = tfhd.Flags | defaultSampleFlagsPresent
 			tfhd.DefaultSampleFlags = commonSampleFlags
